@@ -8,6 +8,9 @@ CLAIMED = {
  "C14": ("TLA+ reference semantics (Positions.tla) model-checked by TLC; every TLC-enumerated document replayed into the real LineMap (spec->impl conformance)",
          "TLC enumerates every document over {ASCII, LF, 2-/3-/4-byte} up to the bound with the boundary table an LSP client computes, checks the reference's own theorems (injective, strictly monotone, operational table = declarative definition) and every enumerated document is replayed into glas' LineMap at every boundary and every ordered pair of boundaries; long documents by TLC simulation of the same spec. Exhaustive within the bound, sampled beyond.",
          "trusts TLC/SANY, the Json module, the harness' rendering of character classes to code points and equality comparison", "4 C14, 3.6"),
+ "C13": ("TLA+ state machine of client/server text synchronisation (DocSync.tla) model-checked by TLC (invariant InSync); every TLC transition replayed into the real Vfs through the hook and TLC-simulated histories replayed black-box into the real server binary",
+         "TLC checks server = StripCR(client) for every document up to the bound x every valid (start,end) position pair x every short replacement (single edits exhaustive, two changes per notification on a smaller bound) and prints one case per transition; each is applied to glas' Vfs exactly as on_did_change does and the stored text compared after every content change. TLC-simulated 10-notification histories are additionally played against the real server process (disk content equal to / different from the opened text) and the text read back through glas/syntaxTree after every notification.",
+         "hook-level replay mirrors the loop of on_did_change (from_range + change_file_content); the black-box sessions cover the real loop. Read-back through glas/syntaxTree relies on C01.", "4 C13, 3.6"),
 }
 NOT_YET = "check not built yet in this revision of /verif (work in progress; see DESIGN.md section 8)"
 
